@@ -721,7 +721,7 @@ fn gen_array_scenario_inner(prop: Prop, rng: &mut Rng, tier: Tier) -> Scenario {
             let ty = if rng.chance(1, 8) { ElemTy::Keyed } else { *rng.pick(&ORD_TYPES) };
             let big = if thorough { if rng.chance(1, 100) { 300 } else { 64 } } else { 12 };
             let nd = if rng.chance(1, 5) { 2 } else { 1 };
-            let lens = lens_for(rng, nd, big, 3, false, thorough);
+            let lens = lens_for(rng, nd, big, 3, true, thorough);
             let ty = maybe_reent(rng, ty, &lens);
             let flag_ = rng.chance(1, 4);
             let (parent_shape, view) = gen_view(rng, &lens, flag_);
@@ -737,6 +737,12 @@ fn gen_array_scenario_inner(prop: Prop, rng: &mut Rng, tier: Tier) -> Scenario {
                 }
                 if let Some((lane, n)) = pick_lane(rng, &shape) {
                     if n == 0 {
+                        // the only in-range request on an empty lane: the empty index list
+                        let mut op = new_op(rng, "select_many");
+                        op.lane = lane;
+                        op.form = rng.below(5) as u8;
+                        op.storage = pick_storage(rng);
+                        scn.ops.push(op);
                         continue;
                     }
                     // now and then a request that must be rejected sits inside the history (not judged here)
@@ -879,7 +885,7 @@ fn gen_array_scenario_inner(prop: Prop, rng: &mut Rng, tier: Tier) -> Scenario {
             let ty = *rng.pick(&ORD_TYPES);
             let lane_max = if thorough { if rng.chance(1, 20) { 200 } else { 40 } } else { 24 };
             let nd = match prop {
-                Prop::C19 => 1 + rng.below(2),
+                Prop::C19 => 1 + rng.weighted(&[3, 3, 1]),
                 _ => 1 + rng.weighted(&[40, 40, 20, 10, 2, 1]),
             };
             let flag_ = prop == Prop::C01 && rng.chance(1, 4);
@@ -1012,7 +1018,15 @@ fn gen_array_scenario_inner(prop: Prop, rng: &mut Rng, tier: Tier) -> Scenario {
                             }
                         }
                         _ => {
-                            if let Some(op) = q_ops(rng, &shape, ty, style, if thorough { 32 } else { 12 }, false) {
+                            if let Some(mut op) = q_ops(rng, &shape, ty, style, if thorough { 32 } else { 12 }, false) {
+                                if !op.name.ends_with('1') && rng.chance(1, 5) {
+                                    // the same routine on an owned copy, now and then with a request it must reject
+                                    op.storage = 1;
+                                    if rng.chance(1, 4) && !op.qs.is_empty() {
+                                        let k = rng.below(op.qs.len());
+                                        op.qs[k] = *rng.pick(&[-0.25, 1.5, 2.0, f64::INFINITY, -1e-9]);
+                                    }
+                                }
                                 scn.ops.push(op);
                             }
                         }
